@@ -26,7 +26,43 @@ ASSUME = [
 ]
 
 
+GOOD_FRAME = '8d40621d58c382d690c8ac2863a7'      # a DF17 squitter with checksum 0 (used by the purity replay)
+
+
+def purity_job(prog, job):
+    """Independence of earlier decodes: every path of Frame::from_bytes (Ok or Err, every buffer length of the job)
+    leaves every thread-local cell it touched at its initial (default) value, so the next decode on this thread
+    starts from the same global state as the first one.  (`static mut` is excluded by the syntactic scan.)"""
+    from mirsym import coll_bi
+    res = {'paths': 0, 'violations': [], 'samples': [], 'steps': 0, 'fn_calls': {}, 'builtin_calls': {}, 'sigs': {},
+           'schedules': 0, 'obligations': 0, 'discharged': 0}
+    L = job['L']
+    ex0, bs, leaves = explore_from_bytes(prog, L, job['spec'])
+    res['steps'] += ex0.stats['steps']
+    P = Prover(base=slice_constraints(job['spec'], bs))
+    touched = set()
+    for l in leaves:
+        res['paths'] += 1
+        res['obligations'] += 1
+        touched |= {k for k in l.env if str(k).startswith('tls:')}
+        left = coll_bi.tls_residue(l.env)
+        if not left:
+            res['discharged'] += 1
+            continue
+        P.set_path(l.pc)
+        m = P.feasible()
+        w = model_bytes(m, bs).hex() if m is not None else None
+        res['violations'].append({'property': 'C19', 'role': 'global-state-left-behind:%s' % leaf_sig(l), 'witness': w,
+                                  'detail': 'a decode of %d bytes ending in %s leaves thread-local state behind (%s): the next decode on '
+                                            'this thread depends on it' % (L, leaf_sig(l), ', '.join('%s=%r' % (k, str(v)[:60]) for k, v in left)),
+                                  'replay_kind': 'seq', 'job': job})
+    res['samples'].append({'purity': 'every from_bytes path of length %d restores thread-local state' % L, 'thread_locals_touched': sorted(touched)})
+    return res
+
+
 def run_job(prog, job):
+    if job.get('kind') == 'purity':
+        return purity_job(prog, job)
     L, spec, shorts, intrs = job['L'], job['spec'], job['shorts'], job['intrs']
     res = {'paths': 0, 'violations': [], 'samples': [], 'steps': 0, 'fn_calls': {}, 'builtin_calls': {}, 'sigs': {},
            'schedules': 0}
@@ -188,6 +224,9 @@ def main(tier):
                     (16, ['z3.LShR(b[0],3)==17', '(b[0]&7)==5', tcq + '==11']), (15, ['z3.LShR(b[0],3)==20', 'b[4]==0x10'])):
         for sh, it in ([(0, 0), (1, 0)] if tier == 'quick' else [(0, 0), (1, 0), (0, 1), (1, 1)]):
             jobs.append({'L': L, 'spec': spec, 'shorts': sh, 'intrs': it})
+    for L in ((1, 6, 7, 13, 14) if tier == 'quick' else range(0, 17)):
+        for spec in fw.df_slices(L):
+            jobs.append({'kind': 'purity', 'L': L, 'spec': spec})
     V.build_replay('debug')
     V.build_replay('release')
     results = fw.run_jobs('checks.c19', jobs, files, dirs)
@@ -220,7 +259,22 @@ def main(tier):
     fw.finish('C19', tier, t0, results, coverage, ASSUME, level='model_checking', replay_fn=replay_violation)
 
 
+def replay_seq(v):
+    """purity counterexample: decode the witness, then a good frame, in one thread; the good frame must decode as in a
+    fresh process"""
+    from checks import c20
+    w = v.get('witness')
+    if w is None:
+        return None
+    a = c20.cfg_native('std', 'seq %s %s' % (w or '00', GOOD_FRAME))
+    b = c20.cfg_native('std', 'decode ' + GOOD_FRAME)
+    v['native'] = {'after_witness': a, 'fresh': b}
+    return a != b
+
+
 def replay_violation(v):
+    if v.get('replay_kind') == 'seq':
+        return replay_seq(v)
     req = v.get('replay_request')
     if not req:
         return None
